@@ -165,5 +165,8 @@ func (k *kit) ControlState() string {
 	if k.lb.rateLimiter != nil {
 		out += vh.FingerprintClip(clip, k.lb.rateLimiter)
 	}
-	return out
+	return out + k.novel()
 }
+
+// VNovel: see kit.novel.
+func (k *kit) VNovel() string { return k.novel() }
